@@ -29,6 +29,7 @@ RULE = (
     'with >=2 paths and >=1 of {named tuple, defaultdict, Box, positional Buildable argument}.'
 )
 RULE += (' ' + 'Also checked: get_all_paths for values without identity (paths of the nearest identity-bearing container plus suffix) and, after a shared container was appended to another list since the cache was filled, get_all_paths(allow_caching=False) on states collected before (leaves of the affected container first).')
+RULE += (' ' + 'Round 6: legacy memoized_traverse with visitors whose result is None / a constant (each identity-bearing object visited once).')
 RULE += (' ' + "Rounds 3-5: a **kwargs argument deleted and re-set after traversal; chains of registration-free registries ending in the default registry or in fiddle's dataclass registry (dataclass instances as nodes); legacy traverse_with_all_paths judged at every node; g3 nodes with an unset defaulted parameter before *args; a **kwargs entry named like a positional-only parameter.")
 ASSUMPTIONS = [
     'reference walk harness/canon.walk + Box wrapper expansion in this file',
@@ -251,8 +252,34 @@ def check(case):
     out.add('iterate-memoized-visits-twice', 'mismatch', '', feat, f'{len(dup)} objects')
     return out
 
-  # 4. collect_paths_by_id (daglish + legacy)
   has_box = feat == 'box'
+  # 3b. legacy memoized_traverse with a visitor that only collects (its result for every node is
+  #     None) and one that maps every container to a constant: every identity-bearing object once
+  if not has_box:
+    for vname, result in (('collect-only', None), ('constant', 0)):
+      lseen = collections.Counter()
+      lkeep = []
+
+      def collecting(paths, value, lseen=lseen, lkeep=lkeep, result=result):
+        lkeep.append(value)
+        lseen[id(value)] += 1
+        yield
+        return result
+
+      try:
+        daglish_legacy.memoized_traverse(collecting, root)
+      except Exception as e:  # pylint: disable=broad-except
+        out.add('legacy-memoized-traverse-raises', exc_kind(e), fiddle_frame(e), feat + ':' + vname, repr(e)[:300])
+        return out
+      if {i for i in lseen if i in expect_ids} != expect_ids:
+        out.add('legacy-memoized-misses-object', 'mismatch', '', feat + ':' + vname, '')
+        return out
+      dup = [i for i in expect_ids if lseen[i] != 1]
+      if dup:
+        out.add('legacy-memoized-visits-twice', 'mismatch', '', feat + ':' + vname, f'{len(dup)} objects')
+        return out
+
+  # 4. collect_paths_by_id (daglish + legacy)
   for name, fn in (('daglish', lambda: daglish.collect_paths_by_id(root, memoizable_only=True)),
                    ('legacy', lambda: daglish_legacy.collect_paths_by_id(root, memoizable_only=True))):
     if has_box and name == 'legacy':
